@@ -26,6 +26,8 @@
 (*                    (Module.recenter_rectangles); fixed modules, areas   *)
 (*                    and nets are not touched                             *)
 (*                                                                         *)
+(*     Again          (object lifecycle) the same object is placed again   *)
+(*                                                                         *)
 (* The clauses of C14 are invariants of this machine (InSpan / DiscInDie,  *)
 (* FixedUnmoved, HardRigid, AreasNetsUnchanged).  TLC checks them on a     *)
 (* small quantised universe, where Step may return ANY vector of a grid    *)
@@ -56,6 +58,7 @@ CONSTANTS HalfSet,       \* set of <<HX, HY>> (half width / height of the die)
           MaxIter,       \* power-iteration steps per dimension explored by TLC (the code: 0..10000)
           G,             \* grid step of the vectors an iteration may produce
           GS,            \* grid step of the random start
+          Rounds,        \* placements of the SAME object explored by TLC (1, or 2: the object is placed again)
           TOL,           \* tolerance in lattice units: 0 in the model, quantisation noise in trace validation
           EMIT           \* TRUE: print the netlists of the universe (behaviour generation), explore nothing
 
@@ -126,11 +129,16 @@ MkNet(h, p, a, g, f, t) ==
       \* modules are loaded somewhere (here: one unit right of the die centre) -- spectral must not care
       place(i) == IF p[i] = "fixed" THEN (IF i = first THEN <<h[1] + f[1], h[2] + f[2]>> ELSE <<h[1] - f[1], h[2] - f[2]>>)
                   ELSE <<h[1] + 1, h[2]>>
-      rs == [ i \in 1..n |-> IF p[i] = "soft" THEN <<>> ELSE Shift(Template(a[i]), place(i)[1], place(i)[2]) ]
-      ar == [ i \in 1..n |-> IF p[i] = "soft" THEN a[i] ELSE RectsArea(rs[i]) ]
-  IN [ half |-> h, kind |-> p, area |-> ar, rad |-> [ i \in 1..n |-> CeilRad(ar[i]) ], rects |-> rs,
-       p0 |-> [ i \in 1..n |-> IF p[i] = "soft" THEN <<0, 0>> ELSE place(i) ],
-       edges |-> EdgesOf(g, n), trials |-> t ]
+      \* "softr" = a soft module that carries a rectangle (a 2x2 square found by an earlier stage) covering only a part
+      \* of its declared area: the disc that must stay in the die is that of the AREA
+      soft(i) == p[i] \in {"soft", "softr"}
+      rs == [ i \in 1..n |-> IF p[i] = "soft" THEN <<>> ELSE IF p[i] = "softr" THEN Shift(Template(1), place(i)[1], place(i)[2])
+                               ELSE Shift(Template(a[i]), place(i)[1], place(i)[2]) ]
+      ar == [ i \in 1..n |-> IF soft(i) THEN a[i] ELSE RectsArea(rs[i]) ]
+  IN [ half |-> h, kind |-> [ i \in 1..n |-> IF soft(i) THEN "soft" ELSE p[i] ], area |-> ar,
+       rad |-> [ i \in 1..n |-> CeilRad(ar[i]) ], rects |-> rs,
+       p0 |-> [ i \in 1..n |-> IF soft(i) THEN <<0, 0>> ELSE place(i) ],
+       edges |-> EdgesOf(g, n), trials |-> t, round |-> 1 ]
 
 \* EMIT: the radii of the lattice model are rounded up, the real ones (computed by the harness from the
 \* areas) are smaller, so the generation universe is filtered by the harness, not by Fits
@@ -274,6 +282,17 @@ Commit == /\ pc = "commit"
           /\ pc' = "done"
           /\ UNCHANGED <<net, trial, dim, iter, pre, coord, best, area, edges>>
 
+\* object lifecycle: the SAME Spectral object is placed again, on the same die or on the die with width and height
+\* exchanged.  The reference of the new placement is the object as the previous one left it (the hard modules where they
+\* were put); nothing else is carried over -- in particular the fixed modules are read from their own place again, not
+\* from the die-centred coordinates of the previous placement.
+Again == /\ ~EMIT /\ pc = "done" /\ net.round < Rounds
+         /\ \E hf \in { net.half, <<net.half[2], net.half[1]>> } :
+               net' = [net EXCEPT !.round = @ + 1, !.half = hf, !.rects = rects,
+                                  !.p0 = [ i \in Nodes(net) |-> IF i \in HardMovOf(net) THEN pos[i] ELSE @[i] ]]
+         /\ pc' = "seed" /\ trial' = 1 /\ dim' = 1 /\ iter' = 0 /\ pre' = <<>> /\ coord' = <<>> /\ best' = NoBest /\ pos' = <<>>
+         /\ UNCHANGED <<rects, area, edges>>
+
 \* behaviour generation: one line per netlist of the universe
 EmitCase == /\ EMIT /\ pc = "seed" /\ coord = <<>>
             /\ PrintT(ToJson(net))
@@ -281,7 +300,7 @@ EmitCase == /\ EMIT /\ pc = "seed" /\ coord = <<>>
             /\ UNCHANGED <<net, trial, dim, iter, pre, coord, best, pos, rects, area, edges>>
 
 \* (Seed and Normalize carry ~EMIT; everything else is reachable only through them)
-Next == EmitCase \/ Seed \/ Normalize \/ Step \/ EndDim \/ EndTrialImprove \/ EndTrialKeep \/ Commit
+Next == EmitCase \/ Seed \/ Normalize \/ Step \/ EndDim \/ EndTrialImprove \/ EndTrialKeep \/ Commit \/ Again
 Spec == Init /\ [][Next]_vars
 
 (***************************************************************************)
@@ -289,7 +308,7 @@ Spec == Init /\ [][Next]_vars
 (* normalize rule to its contract)                                         *)
 (***************************************************************************)
 \* the templates are placed on the lattice (their centroid is a lattice point)
-TemplatesOnLattice == \A i \in Nodes(net) : net.rects[i] # <<>> => CentroidExact(net.rects[i]) /\ Centroid(net.rects[i]) = net.p0[i]
+TemplatesOnLattice == \A i \in Nodes(net) : (net.rects[i] # <<>> /\ net.kind[i] # "soft") => CentroidExact(net.rects[i]) /\ Centroid(net.rects[i]) = net.p0[i]
 \* every normalize call meets its contract (the min-ratio rule keeps every movable node in its span)
 NormalizeMeetsContract == pc = "iter" => AllTrue(NormalizeClauses(pre, coord[dim], Span(net, dim), FixedOf(net), TOL))
 \* dimensions already normalized are inside the span: at any moment the trial could be returned
